@@ -32,6 +32,7 @@ import types
 import lib
 
 KEY = "rbacx_guard"
+OBJ = "$obj"          # a scope value {"$obj": name} in a case stands for an object, see run_impl
 RECV_ID, SEND_ID = 1, 2
 ITEM_IDS = [100, 101, 102, 103, 104, 105]
 FORBIDDEN = b'{"detail": "Forbidden"}'
@@ -89,19 +90,6 @@ def py_checked(case) -> bool:
 # --------------------------------------------------------------------------
 # running the implementation
 # --------------------------------------------------------------------------
-def _snap(scope, guard):
-    out = {}
-    for k, v in scope.items():
-        if v is guard:
-            out[k] = ["guard"]
-        else:
-            try:
-                out[k] = ["v", json.loads(json.dumps(v))]
-            except Exception:  # noqa: BLE001
-                out[k] = ["other", type(v).__name__]
-    return out
-
-
 def _b2s(x):
     if not isinstance(x, bytes):
         return "$nonbytes:" + repr(x)[:200]
@@ -146,31 +134,35 @@ def _mk_decision(d, missing):
 
 
 _GUARDS: dict = {}
+_REC_GUARD = []
 
 
-def _real_guard(gspec):
-    """one recording Guard per (policy, strict) — no cache configured, so evaluations are independent."""
+def _real_guard(gspec, variant=0):
+    """one recording Guard per (policy, strict, variant) — no cache configured, so evaluations are independent;
+    `variant` tells apart distinct Guard objects over the same policy (stacked layers, a foreign Guard in the scope)."""
     from rbacx.core.engine import Guard
 
-    class RecGuard(Guard):
-        async def evaluate_async(self, subject, action, resource, context=None):
-            hook = getattr(self, "_verif_hook", None)
-            if hook is not None:
-                hook("call", (subject, action, resource, context))
-            try:
-                d = await super().evaluate_async(subject, action, resource, context)
-            except BaseException as e:  # noqa: BLE001
+    if not _REC_GUARD:
+        class RecGuard(Guard):
+            async def evaluate_async(self, subject, action, resource, context=None):
+                hook = getattr(self, "_verif_hook", None)
                 if hook is not None:
-                    hook("raise", e)
-                raise
-            if hook is not None:
-                hook("ret", d)
-            return d
+                    hook("call", (subject, action, resource, context))
+                try:
+                    d = await super().evaluate_async(subject, action, resource, context)
+                except BaseException as e:  # noqa: BLE001
+                    if hook is not None:
+                        hook("raise", e)
+                    raise
+                if hook is not None:
+                    hook("ret", d)
+                return d
 
-    key = json.dumps([gspec["policy"], bool(gspec.get("strict"))], sort_keys=True)
+        _REC_GUARD.append(RecGuard)
+    key = json.dumps([gspec["policy"], bool(gspec.get("strict")), variant], sort_keys=True)
     g = _GUARDS.get(key)
     if g is None:
-        g = RecGuard(json.loads(json.dumps(gspec["policy"])), strict_types=bool(gspec.get("strict")))
+        g = _REC_GUARD[0](json.loads(json.dumps(gspec["policy"])), strict_types=bool(gspec.get("strict")))
         if len(_GUARDS) > 4000:
             _GUARDS.clear()
         _GUARDS[key] = g
@@ -193,79 +185,206 @@ def _dec_fields(d):
             "rule_id": getattr(d, "rule_id", None), "policy_id": getattr(d, "policy_id", None)}
 
 
+def _is_ph(v) -> bool:
+    return isinstance(v, dict) and len(v) == 1 and OBJ in v
+
+
+def layer_specs(case):
+    """the middleware instances of a case, outermost first; the last one is the case's own (primary) instance."""
+    out = []
+    for l in case.get("outer") or []:
+        out.append({"mode": l["mode"], "add_headers": l["add_headers"], "builder": l["builder"],
+                    "guard": l.get("guard", "own"), "eval": l.get("eval"), "gspec": l.get("gspec"),
+                    "request": l.get("request"), "expect_allowed": l.get("expect_allowed")})
+    out.append({"mode": case["mode"], "add_headers": case["add_headers"], "builder": case["builder"],
+                "guard": "primary", "eval": case.get("eval"), "gspec": case.get("guard"), "request": None,
+                "expect_allowed": (case.get("guard") or {}).get("expect_allowed")})
+    return out
+
+
+class StubGuard:
+    """evaluate_async returns a scripted Decision (or raises)."""
+
+    def __init__(self, run, ev):
+        self._run, self._ev = run, ev
+
+    async def evaluate_async(self, subject, action, resource, context=None):
+        self._run.on_eval(self, (subject, action, resource, context))
+        await asyncio.sleep(0)
+        ev = self._ev
+        if ev["k"] == "raise":
+            raise EXC[ev["exc"]]("scripted evaluate failure")
+        return _mk_decision(ev["d"], ev.get("missing") or [])
+
+
+class _Layer:
+    def __init__(self, spec):
+        self.spec = spec
+        self.guard = None
+        self.gspec = None        # real Guard: {"policy", "request", ...}
+        self.ev = None           # stub guard: the scripted outcome
+        self.es = None           # the evaluation outcome handed to the model
+        self.events = []
+        self.recorded = []
+        self.extra = {}
+        self.entered = False
+        self.entry = None        # the scope as this instance received it
+        self.app_snap = None     # the scope as this instance handed it to its downstream
+        self.scope_after = None
+        self.end = None
+        self.mw = None
+        self.build_env = None
+
+
+class _Run:
+    """one `await stack(scope, receive, send)`: who is executing, which opaque objects exist."""
+
+    def __init__(self):
+        self.layers = []
+        self.active = []         # indices of the instances being executed, innermost last
+        self.objs = []           # opaque objects; the position is the number the model is given
+        self.named_objs = {}
+        self.idmap = {}
+        self.msgs = []
+
+    def cur(self):
+        return self.layers[self.active[-1]]
+
+    def objnum(self, o):
+        for i, x in enumerate(self.objs):
+            if x is o:
+                return i
+        self.objs.append(o)
+        return len(self.objs) - 1
+
+    def snap(self, sc, guard):
+        """scope content relative to `guard`: ["guard"] (that very object) | ["v", JSON data] | ["obj", n]."""
+        out = {}
+        for k, v in sc.items():
+            if v is guard:
+                out[k] = ["guard"]
+            else:
+                try:
+                    out[k] = ["v", json.loads(json.dumps(v))]
+                except Exception:  # noqa: BLE001
+                    out[k] = ["obj", self.objnum(v)]
+        return out
+
+    def ids_of(self, objs):
+        return [self.idmap.get(id(o), -1) for o in objs]
+
+    def on_eval(self, guard, args):
+        L = self.cur()
+        if guard is L.guard:
+            L.events.append(["eval"] + self.ids_of(args))
+        else:
+            L.events.append(["eval_by_another_guard", self.objnum(guard)] + self.ids_of(args))
+
+
 async def run_impl(case):
-    """-> (obs, eval_spec): obs = canonical observation; eval_spec = the evaluation outcome handed to the model."""
+    """-> {"units": [...], "layers": [...], "final_apps": n, "msgs": [...]}: one unit per middleware instance that was
+    entered (its own input scope, its observation, the evaluation outcome handed to the model)."""
     from rbacx.adapters.asgi import RbacxMiddleware
 
-    events: list = []
-    extra: dict = {}
-    scope = json.loads(json.dumps(case["scope"]))
+    run = _Run()
+    specs = layer_specs(case)
+    n = len(specs)
     gspec = case.get("guard")
-    items: list = []
-    idmap: dict = {}
+    primary = _real_guard(gspec, 0) if gspec else StubGuard(run, case["eval"])
+    run.objs.append(primary)
+    real_guards = [primary] if gspec else []
 
-    def ids_of(objs):
-        return [idmap.get(id(o), -1) for o in objs]
+    # ----- the instances' guards and what their engine answers (outside the middleware)
+    for i, sp in enumerate(specs):
+        L = _Layer(sp)
+        run.layers.append(L)
+        if sp["guard"] in ("primary", "same"):
+            L.guard = primary
+            if gspec:
+                L.gspec = {"policy": gspec["policy"], "strict": gspec.get("strict"),
+                           "request": sp.get("request") or gspec["request"], "expect_allowed": sp["expect_allowed"]}
+            else:
+                L.ev = case["eval"]
+        elif sp.get("gspec"):
+            L.gspec = dict(sp["gspec"], expect_allowed=sp["expect_allowed"])
+            L.guard = _real_guard(L.gspec, i + 1)
+            real_guards.append(L.guard)
+            run.objs.append(L.guard)
+        else:
+            L.ev = sp["eval"]
+            L.guard = StubGuard(run, L.ev)
+            run.objs.append(L.guard)
+        if L.gspec:
+            req = _request_objects(L.gspec["request"])
+            L.guard._verif_hook = None
+            try:
+                d0 = await L.guard.evaluate_async(*req)
+                L.es = {"k": "ret", "d": _dec_fields(d0)}
+            except BaseException as e:  # noqa: BLE001
+                L.es = {"k": "raise", "exc": type(e).__name__}
+            base_items = list(req)
+        else:
+            ev = L.ev
+            L.es = {"k": ev["k"], **({"d": {k: (None if k in (ev.get("missing") or []) else v)
+                                            for k, v in ev["d"].items()}} if ev["k"] == "ret"
+                                     else {"exc": ev["exc"]})}
+            base_items = [_Obj(j) for j in range(4)]
+        b = sp["builder"]
+        if b is not None:
+            nb = b.get("n", 4)
+            while len(base_items) < nb:
+                base_items.append(_Obj(len(base_items)))
+            items = base_items[:nb]
+            for j, o in enumerate(items):
+                run.idmap[id(o)] = ITEM_IDS[j]
+            L.items = items
 
-    # ----- the guard
-    if gspec:
-        guard = _real_guard(gspec)
-        req = _request_objects(gspec["request"])
-        # the engine's own answer for this request, outside the middleware
-        guard._verif_hook = None
-        try:
-            d0 = await guard.evaluate_async(*req)
-            eval_spec = {"k": "ret", "d": _dec_fields(d0)}
-        except BaseException as e:  # noqa: BLE001
-            eval_spec = {"k": "raise", "exc": type(e).__name__}
-        recorded: list = []
+    # ----- the scope: JSON data, placeholders replaced by objects
+    def named(name):
+        if name == "guard":
+            return primary
+        if name not in run.named_objs:
+            if name == "other_guard":
+                o = _real_guard(gspec, 99) if gspec else StubGuard(run, {"k": "raise", "exc": "RuntimeError"})
+                if gspec:
+                    real_guards.append(o)
+            else:
+                o = object()
+            run.named_objs[name] = o
+            run.objnum(o)
+        return run.named_objs[name]
 
+    scope = {}
+    for k, v in case["scope"].items():
+        scope[k] = named(v[OBJ]) if _is_ph(v) else json.loads(json.dumps(v))
+
+    def mk_hook(g):
         def hook(kind, val):
             if kind == "call":
-                events.append(["eval"] + ids_of(val))
-            elif kind == "ret":
-                recorded.append(_dec_fields(val))
+                run.on_eval(g, val)
+            elif kind == "ret" and g is run.cur().guard:
+                run.cur().recorded.append(_dec_fields(val))
+        return hook
 
-        guard._verif_hook = hook
-        extra["recorded"] = recorded
-        base_items = list(req)
-    else:
-        ev = case["eval"]
-        eval_spec = {"k": ev["k"], **({"d": {k: (None if k in (ev.get("missing") or []) else v)
-                                             for k, v in ev["d"].items()}} if ev["k"] == "ret"
-                                      else {"exc": ev["exc"]})}
+    for g in real_guards:
+        g._verif_hook = mk_hook(g)
 
-        class StubGuard:
-            async def evaluate_async(self, subject, action, resource, context=None):
-                events.append(["eval"] + ids_of((subject, action, resource, context)))
-                await asyncio.sleep(0)
-                if ev["k"] == "raise":
-                    raise EXC[ev["exc"]]("scripted evaluate failure")
-                return _mk_decision(ev["d"], ev.get("missing") or [])
+    # ----- env builders
+    def mk_builder(L):
+        b = L.spec["builder"]
+        if b is None:
+            return None
 
-        guard = StubGuard()
-        base_items = [_Obj(i) for i in range(4)]
-
-    # ----- the env builder
-    b = case["builder"]
-    build_env = None
-    if b is not None:
-        n = b.get("n", 4)
-        while len(base_items) < n:
-            base_items.append(_Obj(len(base_items)))
-        items = base_items[:n]
-        for i, o in enumerate(items):
-            idmap[id(o)] = ITEM_IDS[i]
-
-        def build_env(sc):  # noqa: F811
-            events.append(["build", _snap(sc, guard)])
+        def build_env(sc):
+            L.events.append(["build", run.snap(sc, L.guard)])
             if sc is not scope:
-                extra["builder_scope_not_same_object"] = True
+                L.extra["builder_scope_not_same_object"] = True
             if b["k"] == "raise":
                 raise EXC[b["exc"]]("scripted builder failure")
             if b["k"] == "notiter":
                 return None
-            return tuple(items)
+            return tuple(L.items)
+        return build_env
 
     # ----- receive / send / downstream
     nsend = [0]
@@ -274,42 +393,101 @@ async def run_impl(case):
         return {"type": "http.request", "body": b"", "more_body": False}
 
     async def send(m):
-        events.append(["send", SEND_ID, _canon_msg(m)])
+        cm = _canon_msg(m)
+        run.cur().events.append(["send", SEND_ID, cm])
+        run.msgs.append(cm)
         k = nsend[0]
         nsend[0] += 1
         sf = case.get("send_fail")
         if sf and sf[0] == k:
             raise EXC[sf[1]]("scripted send failure")
 
+    final_apps = [0]
+
     async def app(sc, rv, sd):
-        events.append(["app", _snap(sc, guard), RECV_ID if rv is receive else -1, SEND_ID if sd is send else -1])
+        L = run.layers[-1]
+        final_apps[0] += 1
+        L.events.append(["app", run.snap(sc, L.guard), RECV_ID if rv is receive else -1, SEND_ID if sd is send else -1])
         if sc is not scope:
-            extra["app_scope_not_same_object"] = True
+            L.extra["app_scope_not_same_object"] = True
         await asyncio.sleep(0)
         if case.get("app_exc"):
             raise EXC[case["app_exc"]]("scripted downstream failure")
 
-    mw = RbacxMiddleware(app, guard=guard, mode=case["mode"], build_env=build_env,
-                         add_headers=case["add_headers"])
+    async def enter(i, sc, rv, sd):
+        L = run.layers[i]
+        L.entered = True
+        L.entry = run.snap(sc, L.guard)
+        run.active.append(i)
+        try:
+            r = await L.mw(sc, rv, sd)
+            L.end = ["returned"]
+            if r is not None:
+                L.extra["return_value"] = repr(r)[:100]
+        except BaseException as e:  # noqa: BLE001
+            L.end = ["raised", type(e).__name__]
+            raise
+        finally:
+            run.active.pop()
+            L.scope_after = run.snap(sc, L.guard)
+
+    def mk_shim(i):
+        L = run.layers[i]
+
+        async def shim(sc, rv, sd):
+            L.app_snap = run.snap(sc, L.guard)
+            L.events.append(["app", L.app_snap, RECV_ID if rv is receive else -1, SEND_ID if sd is send else -1])
+            if sc is not scope:
+                L.extra["app_scope_not_same_object"] = True
+            await enter(i + 1, sc, rv, sd)
+        return shim
+
+    for i in range(n - 1, -1, -1):
+        L = run.layers[i]
+        sp = L.spec
+        L.mw = RbacxMiddleware(app if i == n - 1 else mk_shim(i), guard=L.guard, mode=sp["mode"],
+                               build_env=mk_builder(L), add_headers=sp["add_headers"])
     try:
-        rv = await mw(scope, receive, send)
-        end = ["returned"]
-        if rv is not None:
-            extra["return_value"] = repr(rv)[:100]
-    except BaseException as e:  # noqa: BLE001
-        end = ["raised", type(e).__name__]
-    if gspec:
-        guard._verif_hook = None
-    obs = {"events": events, "scope": _snap(scope, guard), "end": end}
-    obs.update(extra)
-    return obs, eval_spec
+        await enter(0, scope, receive, send)
+    except BaseException:  # noqa: BLE001
+        pass
+    for g in real_guards:
+        g._verif_hook = None
+
+    units = []
+    for i, L in enumerate(run.layers):
+        if not L.entered:
+            continue
+        inner = run.layers[i + 1] if i + 1 < n else None
+        below = inner is not None and inner.entered
+        if inner is None:
+            app_exc = case.get("app_exc")
+        else:
+            app_exc = inner.end[1] if below and inner.end[0] == "raised" else None
+        # an instance whose downstream is another instance: its part of the scope's history ends when it hands over
+        obs = {"events": L.events, "scope": L.app_snap if below else L.scope_after, "end": L.end}
+        obs.update(L.extra)
+        if L.gspec:
+            obs["recorded"] = L.recorded
+        view = {"mode": L.spec["mode"], "add_headers": L.spec["add_headers"], "builder": L.spec["builder"],
+                "scope": {k: (t[1] if t[0] == "v" else {OBJ: "guard" if t[0] == "guard" else "obj%d" % t[1]})
+                          for k, t in L.entry.items()},
+                "eval": L.ev, "guard": L.gspec, "send_fail": case.get("send_fail"), "app_exc": app_exc,
+                "fam": case.get("fam", "?")}
+        units.append({"li": i, "n": n, "view": view, "entry": L.entry, "obs": obs, "es": L.es})
+    layers = [{"mode": L.spec["mode"], "add_headers": L.spec["add_headers"], "builder": L.spec["builder"],
+               "eval": L.ev, "guard": L.gspec, "es": L.es, "entered": L.entered} for L in run.layers]
+    return {"units": units, "layers": layers, "final_apps": final_apps[0], "msgs": run.msgs}
 
 
 # --------------------------------------------------------------------------
 # running the model
 # --------------------------------------------------------------------------
-def model_line(case, eval_spec):
-    b = case["builder"]
+def model_line(u):
+    """one instance's call: its configuration, the scope as it received it (entries: JSON data | its own guard |
+    another object), what its collaborators do."""
+    v, es = u["view"], u["es"]
+    b = v["builder"]
     if b is None:
         mb = None
     elif b["k"] == "ret":
@@ -318,10 +496,11 @@ def model_line(case, eval_spec):
         mb = ["notiter"]
     else:
         mb = ["raise", b["exc"]]
-    me = ["ret", eval_spec["d"]] if eval_spec["k"] == "ret" else ["raise", eval_spec["exc"]]
-    sf = case.get("send_fail")
-    return lib.model_call("asgi.call", {"mode": case["mode"], "add_headers": bool(case["add_headers"])},
-                          case["scope"], RECV_ID, SEND_ID, mb, me, list(sf) if sf else None, case.get("app_exc"))
+    me = ["ret", es["d"]] if es["k"] == "ret" else ["raise", es["exc"]]
+    sf = v.get("send_fail")
+    return lib.model_call("asgi.call", {"mode": v["mode"], "add_headers": bool(v["add_headers"])},
+                          [[k, t] for k, t in u["entry"].items()], RECV_ID, SEND_ID, mb, me,
+                          list(sf) if sf else None, v.get("app_exc"))
 
 
 def _canon_model(m):
@@ -399,6 +578,57 @@ def _py_denial_ok(case, eval_spec, obs):
     return msgs == full
 
 
+def judge_direct(chk, case, res, already=False):
+    """the statement read directly on the implementation, end to end, for the whole stack of instances: walk the
+    instances outermost first; the first one that enforces (http + mode == "enforce" + builder) and whose builder
+    fails / whose engine raises / whose engine does not allow ends the request there."""
+    t = case["scope"].get("type")
+    http = isinstance(t, str) and t == "http"
+    block = None
+    for i, li in enumerate(res["layers"]):
+        if not (http and isinstance(li["mode"], str) and li["mode"] == "enforce" and li["builder"] is not None):
+            continue
+        b, es = li["builder"], li["es"]
+        if b["k"] != "ret" or b.get("n", 4) != 4:
+            block = ("builder_fails", i)
+        elif es["k"] == "raise":
+            block = ("evaluate_raises", i)
+        elif not es["d"]["allowed"]:
+            block = ("denied", i)
+        if block:
+            break
+    n = len(res["layers"])
+    where = "" if n == 1 else " [stack of %d instances; instance %s]" % (n, block[1] + 1 if block else "-")
+    chk.count("direct:" + (block[0] if block else "goes_through"))
+    apps, msgs = res["final_apps"], res["msgs"]
+    real_chk = chk
+    if already:          # this input is already filed as a violation by the per-instance judgement: only count
+        class _CountOnly:
+            @staticmethod
+            def violation(*a, **k):
+                real_chk.count("direct:fails_too")
+        chk = _CountOnly
+    if block is None:
+        if apps != 1:
+            chk.violation("downstream must run exactly once when no enforcing instance's engine refused (direct)" + where,
+                          case, impl=res)
+    elif apps:
+        clause = {"denied": "downstream was invoked although the engine did not allow the request",
+                  "builder_fails": "downstream was invoked although building the request environment failed",
+                  "evaluate_raises": "downstream was invoked although evaluating raised"}[block[0]]
+        chk.violation(clause + " (direct)" + where, case, impl=res)
+    if block is None or block[0] != "denied":
+        if msgs:
+            chk.violation("the middleware sent a response although no engine denied (direct)" + where, case, impl=res)
+    else:
+        li = res["layers"][block[1]]
+        pseudo = {"guard": li["guard"], "eval": li["eval"], "add_headers": li["add_headers"],
+                  "send_fail": case.get("send_fail")}
+        if not ood_surrogate(pseudo) and not _py_denial_ok(pseudo, li["es"], {"events": [["send", SEND_ID, m] for m in msgs]}):
+            chk.violation("a denial is exactly one 403 response: start (content-type, content-length, X-RBACX-* only "
+                          "with add_headers) + the generic Forbidden body (direct)" + where, case, impl=res)
+
+
 def check_cases(chk, cases, replay=False):
     async def run_all():
         out = []
@@ -407,33 +637,43 @@ def check_cases(chk, cases, replay=False):
         return out
 
     results = asyncio.run(run_all())
-    lines = [model_line(c, es) for c, (_, es) in zip(cases, results)]
+    flat = [(c, r, u) for c, r in zip(cases, results) for u in r["units"]]
+    lines = [model_line(u) for _, _, u in flat]
     answers = lib.run_model("asgi", lines, chunk=250, procs=16)
     models = [_canon_model(lib.dec(x)) for x in answers]
     if not replay and len(cases) > 1000 and "extraction_crosscheck" not in chk.extra:
         extraction_crosscheck(chk, lines, answers)
 
-    for c, (obs, es), m in zip(cases, results, models):
+    nv_before = {}
+    for (case, res, u), m in zip(flat, models):
+        nv_before.setdefault(id(res), len(chk.violations))
+        c, obs, es = u["view"], u["obs"], u["es"]
+        pre = "" if u["n"] == 1 else "[instance %d of %d, outermost first] " % (u["li"] + 1, u["n"])
         cat = _category(c, es)
         checked = py_checked(c)
         surrogate = ood_surrogate(c)
         nontriv = checked or (es["k"] == "raise" or (es["k"] == "ret" and not es["d"]["allowed"])
                               or (c["builder"] or {}).get("k") in ("raise", "notiter"))
-        chk.mark(("c20", json.dumps(lib.jsonable({k: v for k, v in c.items() if k != "fam"}), sort_keys=True,
-                                    default=str)), nontriv)
-        chk.count("fam:" + c.get("fam", "?"))
+        chk.mark(("c20", u["li"], json.dumps(lib.jsonable({k: v for k, v in case.items() if k != "fam"}), sort_keys=True,
+                                             default=str)), nontriv)
         chk.count("category:" + cat)
         chk.count("guard:" + ("real" if c.get("guard") else "stub"))
         chk.count("mode:" + (c["mode"] if c["mode"] in ("enforce", "inject") else "other"))
         chk.count("scope_type:" + (c["scope"].get("type") if c["scope"].get("type") in
                                    ("http", "websocket", "lifespan") else "other"))
+        kt = u["entry"].get(KEY)
+        chk.count("incoming_rbacx_guard:" + ("absent" if kt is None else "own_guard_object" if kt[0] == "guard"
+                                             else "another_object" if kt[0] == "obj"
+                                             else "None" if kt[1] is None else "json_data"))
+        if kt is not None and kt[0] == "guard" and checked:
+            chk.count("incoming_own_guard_and_enforcing:" + cat)
         chk.count("add_headers:%s" % bool(c["add_headers"]))
         chk.count("impl_end:" + "/".join(str(x) for x in obs["end"]))
         if cat == "denied":
             hs = [mm for mm in _msgs(obs) if mm[0] == "start"]
             if hs and isinstance(hs[0][2], list):
                 chk.count("denied_extra_headers:%d" % max(0, len(hs[0][2]) - 2))
-        chk.sample({"case": c, "impl": obs, "model": m}, every=2503)
+        chk.sample({"case": case, "instance": u["li"], "impl": obs, "model": m}, every=2503)
         iapps, mapps = _apps(obs), _apps(m)
         imsgs, mmsgs = _msgs(obs), _msgs(m)
 
@@ -442,47 +682,47 @@ def check_cases(chk, cases, replay=False):
             if mm[0] == "body":
                 for f, s in _needles(es):
                     if s in mm[1]:
-                        chk.violation(f"403 body contains the decision's {f}", c, impl=obs, model=m)
+                        chk.violation(pre + f"403 body contains the decision's {f}", case, impl=obs, model=m)
         if obs.get("app_scope_not_same_object"):
-            chk.violation("downstream did not receive the scope object it was called with (pass through unchanged)",
-                          c, impl=obs, model=m)
+            chk.violation(pre + "downstream did not receive the scope object it was called with (pass through unchanged)",
+                          case, impl=obs, model=m)
         # ---- composed statement on the family's own expectation (engine regressions seen through the adapter)
         g = c.get("guard")
         if g and g.get("expect_allowed") is not None and checked and cat in ("allowed", "denied"):
             if bool(iapps) != bool(g["expect_allowed"]):
-                chk.violation("downstream ran iff the request is permitted by the policy (engine decision seen "
+                chk.violation(pre + "downstream ran iff the request is permitted by the policy (engine decision seen "
                               "through the adapter differs from the family's expectation: allowed=%r expected %r)"
                               % (es["d"]["allowed"] if es["k"] == "ret" else None, g["expect_allowed"]),
-                              c, impl=obs, model=m)
+                              case, impl=obs, model=m)
         if g and obs.get("recorded") and es["k"] == "ret" and obs["recorded"][0] != es["d"]:
             chk.corr_break("the engine answered differently inside and outside the middleware for the same request",
-                           c, impl=obs["recorded"][0], model=es["d"], theorems=["c20_downstream_iff_engine_allowed"])
+                           case, impl=obs["recorded"][0], model=es["d"], theorems=["c20_downstream_iff_engine_allowed"])
 
         # ---- out-of-domain stream 1: lone surrogates (never an alarm beyond fail-closed)
         if surrogate:
             chk.count("ood:surrogate")
             if cat in ("denied", "builder_fails", "evaluate_raises"):
                 if iapps:
-                    chk.violation("downstream invoked although the request was not allowed (lone-surrogate id)", c,
-                                  impl=obs, model=m)
+                    chk.violation(pre + "downstream invoked although the request was not allowed (lone-surrogate id)",
+                                  case, impl=obs, model=m)
                 full = len(imsgs) == 2 and imsgs[0][0] == "start" and imsgs[0][1] == 403 \
                     and imsgs[1] == ["body", FORBIDDEN_S]
                 if imsgs and not full:
-                    chk.violation("partial / non-generic response for a denial with a lone-surrogate id", c,
+                    chk.violation(pre + "partial / non-generic response for a denial with a lone-surrogate id", case,
                                   impl=obs, model=m)
                 if cat == "denied":
                     chk.count("ood:surrogate:" + ("raised_nothing_sent" if not imsgs else "403_sent"))
             elif cat == "allowed" and len(iapps) != 1:
-                chk.violation("downstream not invoked exactly once for an allowed request", c, impl=obs, model=m)
+                chk.violation(pre + "downstream not invoked exactly once for an allowed request", case, impl=obs, model=m)
             continue
         # ---- out-of-domain stream 2: str() of a decision field outside the model's str
         if m["end"] == ["ood"]:
             chk.count("ood:str")
             if iapps:
-                chk.violation("downstream invoked although the request was not allowed", c, impl=obs, model=m)
+                chk.violation(pre + "downstream invoked although the request was not allowed", case, impl=obs, model=m)
             if not _py_denial_ok(c, es, obs):
-                chk.violation("denial is not the single generic 403 with the documented headers (judged directly; "
-                              "str() of a field is outside the model)", c, impl=obs, model=m)
+                chk.violation(pre + "denial is not the single generic 403 with the documented headers (judged directly; "
+                              "str() of a field is outside the model)", case, impl=obs, model=m)
             continue
 
         # ---- in domain: the model's answer is the only behaviour the theorems allow
@@ -499,7 +739,7 @@ def check_cases(chk, cases, replay=False):
                 "passthrough": "non-http scope / mode other than enforce / no builder: exactly one downstream call "
                                "with the same receive/send and the engine attached (c20_passthrough)",
             }[cat]
-            chk.violation(clause, c, impl=obs, model=m)
+            chk.violation(pre + clause, case, impl=obs, model=m)
         if imsgs != mmsgs:
             bad = True
             if cat == "denied":
@@ -517,24 +757,31 @@ def check_cases(chk, cases, replay=False):
             else:
                 clause = "nothing may be sent by the middleware unless it denies (c20_passthrough / " \
                          "c20_raise_blocks_downstream / c20_downstream_iff_allowed)"
-            chk.violation(clause, c, impl=obs, model=m)
+            chk.violation(pre + clause, case, impl=obs, model=m)
         if obs["scope"] != m["scope"]:
             bad = True
-            chk.violation("the engine is attached to the scope under 'rbacx_guard' and nothing else in the scope "
-                          "changes (c20_engine_attached)", c, impl=obs, model=m)
+            chk.violation(pre + "the engine is attached to the scope under 'rbacx_guard' and nothing else in the scope "
+                          "changes (c20_engine_attached)", case, impl=obs, model=m)
         if not bad:
             if obs["end"] != m["end"]:
-                chk.corr_break("how the call ends (returned / exception class propagated)", c, impl=obs["end"],
+                chk.corr_break("how the call ends (returned / exception class propagated)", case, impl=obs["end"],
                                model=m["end"], theorems=["c20_raise_blocks_downstream", "c20_passthrough",
                                                          "c20_single_generic_403"])
             elif obs["events"] != m["events"]:
                 chk.corr_break("trace of build_env / evaluate_async calls (order, scope seen by the builder, the four "
-                               "objects passed on to evaluate_async)", c, impl=obs["events"], model=m["events"],
-                               theorems=THEOREMS_TRACE)
+                               "objects passed on to evaluate_async, the guard consulted)", case, impl=obs["events"],
+                               model=m["events"], theorems=THEOREMS_TRACE)
             elif obs.get("return_value") or obs.get("builder_scope_not_same_object"):
-                chk.corr_break("return value / scope object handed to the builder", c,
+                chk.corr_break("return value / scope object handed to the builder", case,
                                impl={k: obs.get(k) for k in ("return_value", "builder_scope_not_same_object")},
                                model=None, theorems=THEOREMS_TRACE)
+
+    filed = {id(v["case"]) for v in chk.violations}
+    for case, res in zip(cases, results):
+        chk.count("fam:" + case.get("fam", "?"))
+        chk.count("instances:%d" % len(res["layers"]))
+        chk.count("instances_entered:%d" % len(res["units"]))
+        judge_direct(chk, case, res, already=res.get("_filed", False))
 
 
 # --------------------------------------------------------------------------
@@ -629,34 +876,131 @@ def _hostile_field(rng):
     return "".join(rng.choice("abc \"'\\\n\tÿ€😀{}:,") for _ in range(n))
 
 
+def _ph(name):
+    return {OBJ: name}
+
+
+def _rand_eval(rng):
+    if rng.random() < 0.12:
+        return {"k": "raise", "exc": rng.choice(["RuntimeError", "ValueError", "KeyError", "OSError",
+                                                 "CancelledError", "VerifBaseExc", "TypeError"])}
+    ev = {"k": "ret", "d": _dec(rng.choice(ALLOWED_POOL), rng.choice(["permit", "deny", "Permit", "", None, 1]),
+                                _hostile_field(rng), _hostile_field(rng), _hostile_field(rng))}
+    if rng.random() < 0.08:
+        ev["missing"] = rng.choice([["rule_id"], ["policy_id"], ["rule_id", "policy_id"]])
+    return ev
+
+
+INCOMING_GUARD_POOL = ["stale", None, 0, {"old": True}, ["x"], _ph("guard"), _ph("guard"), _ph("guard"),
+                       _ph("other_guard"), _ph("other_guard"), _ph("object")]
+
+
 def gen_hostile(chk, n):
     rng = chk.rng
     for _ in range(n):
         t = rng.choice(TYPE_POOL)
         extra = {}
-        if rng.random() < 0.3:
-            extra[KEY] = rng.choice(["stale", None, 0, {"old": True}, ["x"]])
+        if rng.random() < 0.35:
+            extra[KEY] = rng.choice(INCOMING_GUARD_POOL)
         if rng.random() < 0.3:
             extra["state"] = {"user": rng.choice(["alice", "bob", "é"]), "n": rng.randint(0, 9)}
         if rng.random() < 0.1:
             extra["rbacx_guard "] = "decoy"
+        if rng.random() < 0.05:
+            extra[rng.choice(["app", "guard", "rbacx", "extensions"])] = rng.choice(
+                [_ph("guard"), _ph("other_guard"), _ph("object")])
         sc = _scope(t if isinstance(t, str) else "http", extra)
         if not isinstance(t, str):
             sc["type"] = t
-        if rng.random() < 0.12:
-            ev = {"k": "raise", "exc": rng.choice(["RuntimeError", "ValueError", "KeyError", "OSError",
-                                                   "CancelledError", "VerifBaseExc", "TypeError"])}
-        else:
-            ev = {"k": "ret", "d": _dec(rng.choice(ALLOWED_POOL), rng.choice(["permit", "deny", "Permit", "", None, 1]),
-                                        _hostile_field(rng), _hostile_field(rng), _hostile_field(rng))}
-            if rng.random() < 0.08:
-                ev["missing"] = rng.choice([["rule_id"], ["policy_id"], ["rule_id", "policy_id"]])
+        elif rng.random() < 0.01:
+            sc["type"] = rng.choice([_ph("guard"), _ph("object")])
+        if KEY in sc and rng.random() < 0.3:          # dict order: the key comes first
+            sc = {KEY: sc[KEY], **{k: v for k, v in sc.items() if k != KEY}}
+        ev = _rand_eval(rng)
         sf = None
         if rng.random() < 0.1:
             sf = [rng.choice([0, 1, 2]), rng.choice(["OSError", "RuntimeError", "CancelledError"])]
         ae = rng.choice(["KeyError", "RuntimeError", "VerifBaseExc"]) if rng.random() < 0.1 else None
-        yield {"fam": "hostile", "mode": rng.choice(MODE_POOL), "add_headers": rng.random() < 0.6, "scope": sc,
-               "builder": rng.choice(BUILDER_POOL), "eval": ev, "send_fail": sf, "app_exc": ae}
+        case = {"fam": "hostile", "mode": rng.choice(MODE_POOL), "add_headers": rng.random() < 0.6, "scope": sc,
+                "builder": rng.choice(BUILDER_POOL), "eval": ev, "send_fail": sf, "app_exc": ae}
+        if rng.random() < 0.15:                       # the instance sits behind one or two other instances
+            outer = []
+            for _k in range(rng.choice([1, 1, 1, 2])):
+                l = {"mode": rng.choice(["inject", "inject", "enforce", "enforce", rng.choice(MODE_POOL)]),
+                     "add_headers": rng.random() < 0.5, "builder": rng.choice(BUILDER_POOL + [None] * 8),
+                     "guard": rng.choice(["same", "same", "own"])}
+                if l["guard"] == "own":
+                    l["eval"] = _rand_eval(rng) if rng.random() < 0.5 else \
+                        {"k": "ret", "d": _dec(True, "permit", "matched", "r0", None)}
+                outer.append(l)
+            case["outer"] = outer
+            case["fam"] = "hostile:stacked"
+        yield case
+
+
+EV_ALLOW = {"k": "ret", "d": _dec(True, "permit", "matched", "r1", "p1")}
+EV_DENY = {"k": "ret", "d": _dec(False, "deny", "explicit_deny", "r2", "p2")}
+EV_RAISE = {"k": "raise", "exc": "LookupError"}
+B_RAISE = {"k": "raise", "exc": "RuntimeError"}
+
+
+def gen_incoming_scope(chk):
+    """the incoming scope is an input: what it already carries under 'rbacx_guard' (nothing, the very guard object
+    the middleware was built with, another guard object, a plain object, None, JSON data), where in the dict, and
+    objects under other keys / as the type; complete product (stub guard)."""
+    incoming = [_ph("guard"), _ph("other_guard"), _ph("object"), None, "stale", {"old": True}]
+    for inc, first, mode, ah, t, b, ev, ae in itertools.product(
+            incoming, (False, True), ("enforce", "inject"), (False, True), ("http", "websocket"),
+            (RET4, B_RAISE, None, {"k": "ret", "n": 3}), (EV_ALLOW, EV_DENY, EV_RAISE), (None, "KeyError")):
+        sc = _scope(t, {KEY: inc})
+        if first:
+            sc = {KEY: inc, **_scope(t)}
+        yield {"fam": "incoming_scope", "mode": mode, "add_headers": ah, "scope": sc, "builder": b, "eval": ev,
+               "send_fail": None, "app_exc": ae}
+    others = [{"state": _ph("guard")}, {"app": _ph("object"), KEY: _ph("guard")}, {"type": _ph("guard")},
+              {"type": _ph("object"), KEY: _ph("guard")}, {"rbacx_guard ": _ph("guard")},
+              {"guard": _ph("guard"), "rbacx": _ph("other_guard")}]
+    for ex, mode, ah, b, ev in itertools.product(others, ("enforce", "inject"), (False, True), (RET4, B_RAISE, None),
+                                                 (EV_ALLOW, EV_DENY, EV_RAISE)):
+        yield {"fam": "incoming_scope", "mode": mode, "add_headers": ah, "scope": _scope("http", ex), "builder": b,
+               "eval": ev, "send_fail": None, "app_exc": None}
+
+
+def gen_stacks(chk):
+    """stacked deployments: an outer instance wrapping the case's instance — inject or enforce outside, sharing the
+    guard object or with its own, with / without / with a failing env builder; enforce or inject inside; plus all
+    three-instance stacks over {inject, enforce} x {shared, own guard}; complete product (stub guards)."""
+    outers = []
+    for mode, b in itertools.product(("inject", "enforce"), (RET4, None, B_RAISE)):
+        outers.append({"mode": mode, "add_headers": True, "builder": b, "guard": "same"})
+        for ev in (EV_ALLOW, EV_DENY, EV_RAISE):
+            outers.append({"mode": mode, "add_headers": False, "builder": b, "guard": "own", "eval": ev})
+    for o, mode, b, ev, ah, t, inc in itertools.product(
+            outers, ("enforce", "inject"), (RET4, B_RAISE, None), (EV_ALLOW, EV_DENY, EV_RAISE), (False, True),
+            ("http", "websocket"), ("absent", _ph("guard"), _ph("other_guard"))):
+        yield {"fam": "stack2", "mode": mode, "add_headers": ah, "scope": _scope(t, None if inc == "absent" else {KEY: inc}),
+               "builder": b, "eval": ev, "send_fail": None, "app_exc": None, "outer": [dict(o)]}
+    for (m0, g0, e0), (m1, g1, e1), m2, e2 in itertools.product(
+            list(itertools.product(("inject", "enforce"), ("same", "own"), (EV_ALLOW, EV_DENY))), 
+            list(itertools.product(("inject", "enforce"), ("same", "own"), (EV_ALLOW, EV_DENY))),
+            ("inject", "enforce"), (EV_ALLOW, EV_DENY, EV_RAISE)):
+        if (g0 == "same" and e0 is EV_DENY) or (g1 == "same" and e1 is EV_DENY):
+            continue                                  # a shared guard answers as the primary one does: no own script
+        outer = []
+        for m, g, e in ((m0, g0, e0), (m1, g1, e1)):
+            l = {"mode": m, "add_headers": False, "builder": RET4, "guard": g}
+            if g == "own":
+                l["eval"] = e
+            outer.append(l)
+        yield {"fam": "stack3", "mode": m2, "add_headers": True, "scope": _scope("http"), "builder": RET4, "eval": e2,
+               "send_fail": None, "app_exc": None, "outer": outer}
+    # failing sends / raising downstream behind a stack
+    for o, ev, sf, ae in itertools.product(
+            ({"mode": "inject", "add_headers": False, "builder": None, "guard": "same"},
+             {"mode": "enforce", "add_headers": False, "builder": RET4, "guard": "own", "eval": EV_ALLOW}),
+            (EV_ALLOW, EV_DENY), (None, [0, "OSError"], [1, "OSError"]), (None, "KeyError", "CancelledError")):
+        yield {"fam": "stack2", "mode": "enforce", "add_headers": True, "scope": _scope("http"), "builder": RET4,
+               "eval": ev, "send_fail": sf, "app_exc": ae, "outer": [dict(o)]}
 
 
 # ---- the real Guard over a family of small policies
@@ -721,6 +1065,41 @@ def gen_guard_enum(chk):
         yield {"fam": "guard:" + pname, "mode": mode, "add_headers": ah, "scope": _scope(t), "builder": b,
                "guard": {"policy": pol, "request": REQUESTS[rname], "expect_allowed": exp[rname]},
                "eval": None, "send_fail": None, "app_exc": None}
+
+
+def gen_guard_stacks(chk):
+    """stacked deployments over the real Guard: the same Guard object shared by an inject-mode (or enforce-mode) root
+    instance and the enforcing instance of a sub-application; another Guard object over the same policy / over a
+    permitting / a denying policy outside; enforce wrapping inject; complete product over the policy family."""
+    P = guard_policies()
+    permit, deny = P["permit"][0], P["deny"][0]
+    for (pname, (pol, exp)), rname in itertools.product(P.items(), REQUESTS):
+        req = REQUESTS[rname]
+        shapes = [
+            [{"mode": "inject", "builder": None, "guard": "same"}],
+            [{"mode": "inject", "builder": RET4, "guard": "same"}],
+            [{"mode": "inject", "builder": None, "guard": "own", "gspec": {"policy": pol, "request": req}}],
+            [{"mode": "enforce", "builder": None, "guard": "same"}],
+            [{"mode": "enforce", "builder": RET4, "guard": "same", "expect_allowed": exp[rname]}],
+            [{"mode": "enforce", "builder": RET4, "guard": "own", "gspec": {"policy": permit, "request": REQUESTS["read"]},
+              "expect_allowed": True}],
+            [{"mode": "enforce", "builder": RET4, "guard": "own", "gspec": {"policy": deny, "request": REQUESTS["read"]},
+              "expect_allowed": False}],
+            [{"mode": "inject", "builder": None, "guard": "own", "gspec": {"policy": deny, "request": req}},
+             {"mode": "inject", "builder": None, "guard": "same"}],
+        ]
+        for shape, mode, (b, ah) in itertools.product(shapes, ("enforce", "inject"),
+                                                      ((RET4, False), (RET4, True), (B_RAISE, False))):
+            outer = [dict(l, add_headers=ah) for l in shape]
+            yield {"fam": "guard_stack:" + pname, "mode": mode, "add_headers": ah, "scope": _scope("http"), "builder": b,
+                   "guard": {"policy": pol, "request": req, "expect_allowed": exp[rname]},
+                   "eval": None, "send_fail": None, "app_exc": None, "outer": outer}
+        # a single instance whose incoming scope already carries its own Guard object / another Guard object
+        for inc, mode, b, ah in itertools.product((_ph("guard"), _ph("other_guard")), ("enforce", "inject"),
+                                                  (RET4, B_RAISE), (False, True)):
+            yield {"fam": "guard_incoming:" + pname, "mode": mode, "add_headers": ah, "scope": _scope("http", {KEY: inc}),
+                   "builder": b, "guard": {"policy": pol, "request": req, "expect_allowed": exp[rname]},
+                   "eval": None, "send_fail": None, "app_exc": None}
 
 
 def gen_guard_hostile(chk, n):
@@ -840,6 +1219,7 @@ def run(chk):
         check_cases(chk, corp)
     quick = chk.tier == "quick"
     cases = (list(gen_enum_a(chk)) + list(gen_enum_b(chk)) + list(gen_enum_c(chk)) + list(gen_guard_enum(chk))
+             + list(gen_incoming_scope(chk)) + list(gen_stacks(chk)) + list(gen_guard_stacks(chk))
              + list(gen_ood_surrogate(chk)))
     chk.exhaustive = True
     cases += list(gen_hostile(chk, 8000 if quick else 150000))
